@@ -13,7 +13,9 @@ url    url_unescape(url_escape(x, plus), plus=plus) == x for text; the encoding=
 json   '</' never occurs in json_encode(v); json_decode(json_encode(v)) equals v with a *type-strict*
        comparison (1 != 1.0 != True, -0.0 != 0.0), for str and bytes input of json_decode.
 utf8   to_unicode(utf8(s)) == s; utf8(to_unicode(b)) == b for valid UTF-8; identity on already
-       converted values and None; TypeError for int/float/bool/list/tuple/dict/object;
+       converted values and None; TypeError for every other type from utf8/to_unicode/native_str/to_basestring/_unicode
+       (int, float, bool, list, tuple, dict, set, object, and the look-alikes bytearray, memoryview, classes with
+       .decode()/.encode()); str/bytes *subclass* instances are converted like str/bytes (finite part "types");
        recursive_unicode == an independent recursive map over list/tuple/dict containers.
 query  parse_qs_bytes(qs, keep_blank_values=True) for qs as bytes and as latin-1 text equals
        {name.decode('latin1'): [value bytes ...]} built from the generating pairs (each byte was emitted
@@ -32,6 +34,10 @@ Sensitivity (quick tier, seed 1, scratch copy of /repo/tornado; all caught):
      at one seed only)                          caught at every seed by the finite "forms" part (23 non-normalised
      strings x 5 contexts x 8 helpers) -> C21.url_roundtrip_text on "e\\u0301"; siblings NFD / NFKC / NFKD in
      url_escape, and NFC in xhtml_escape, json_encode, utf8 and to_unicode: all caught by the same part.
+  M10 to_unicode tries value.decode("utf-8") and maps AttributeError to TypeError instead of checking isinstance(bytes)
+     (found by independent mutation testing; missed because the sweep had no foreign type with a .decode method)
+     caught at every seed by the finite "types" part -> C21.utf8_rejects_other_types (to_unicode / native_str /
+     to_basestring / _unicode given bytearray(b"abc") return 'abc'; also the duck-typed _HasDecode object).
   Equivalent (not caught, cannot be): url_unescape text branch always using unquote_plus -- url_escape never
   emits a raw '+' when plus=False, so the round-trip law the statement gives cannot tell the two apart.
 """
@@ -59,6 +65,9 @@ ASSUMPTIONS = [
     "inside a name or value are percent-encoded and '=' inside a name is percent-encoded (WHATWG urlencoded)",
     "JSON-representable = None/bool/int/finite float/str/list/dict with str keys; equality is type-strict",
     "invalid UTF-8 given to the text helpers is outside 'valid data': UnicodeDecodeError or a safe result",
+    "'reject other types' (statement) + 'must be a byte string / unicode string' (docstrings) means TypeError for anything "
+    "that is not an instance of str, bytes or None -- bytearray, memoryview and duck-typed objects included; url_escape, "
+    "json_encode etc. are not covered by that sentence and get no foreign-type clause",
 ]
 TECHNIQUE = "property-based testing (Hypothesis): round-trip laws, output-alphabet scanners and a constructive reference for query strings"
 LEVEL_TEXT = (
@@ -356,11 +365,39 @@ class _Obj:
     pass
 
 
+class _HasDecode:
+    def decode(self, *a, **k):
+        return "decoded"
+
+
+class _HasEncode:
+    def encode(self, *a, **k):
+        return b"encoded"
+
+
+class _HasBoth(_HasDecode, _HasEncode):
+    pass
+
+
+class _StrSub(str):
+    pass
+
+
+class _BytesSub(bytes):
+    pass
+
+
+# "reject other types": everything that is not str / bytes / None, including look-alikes that happen to have a
+# .decode() / .encode() method (bytearray, duck-typed classes) or the buffer protocol (memoryview)
 OTHER = {
     "int": lambda: 7, "zero": lambda: 0, "float": lambda: 1.5, "bool": lambda: True, "list": lambda: ["a"],
     "tuple": lambda: ("a",), "dict": lambda: {"a": "b"}, "object": lambda: _Obj(), "empty_list": lambda: [],
     "set": lambda: {"a"},
+    "bytearray": lambda: bytearray(b"abc"), "empty_bytearray": lambda: bytearray(), "bytearray_non_utf8": lambda: bytearray(b"\xff"),
+    "memoryview": lambda: memoryview(b"abc"), "has_decode": lambda: _HasDecode(), "has_encode": lambda: _HasEncode(),
+    "has_both": lambda: _HasBoth(), "list_of_bytes": lambda: [b"a"], "type_bytes": lambda: bytes, "complex": lambda: 1j,
 }
+TYPE_REJECTING = ("utf8", "to_unicode", "native_str", "to_basestring", "_unicode")
 
 short_text = text_s.map(lambda s: s[:20])
 tree_leaf = st.one_of(
@@ -477,13 +514,26 @@ def run_utf8(ctx, case):
         if escape.utf8(None) is not None or escape.to_unicode(None) is not None:
             ctx.fail("C21.utf8_none_identity", {})
     elif kind == "other":
-        for fn in ("utf8", "to_unicode"):
+        for fn in TYPE_REJECTING:
             v = OTHER[x]()
             try:
                 got = getattr(escape, fn)(v)
             except TypeError:
                 continue
             ctx.fail("C21.utf8_rejects_other_types", {"function": fn, "type": x, "returned": repr(got)})
+        nontrivial = True
+    elif kind == "subclass":
+        # instances of str / bytes subclasses ARE str / bytes: documented conversion applies
+        raw = x.encode("utf-8")
+        if escape.utf8(_StrSub(x)) != raw or escape.to_unicode(_StrSub(x)) != x:
+            ctx.fail("C21.utf8_str_subclass", {"input": x})
+        if escape.utf8(_BytesSub(raw)) != raw or escape.to_unicode(_BytesSub(raw)) != x:
+            ctx.fail("C21.utf8_bytes_subclass", {"input": x})
+        for alias in ("native_str", "to_basestring", "_unicode"):
+            if getattr(escape, alias)(_BytesSub(raw)) != x or getattr(escape, alias)(_StrSub(x)) != x:
+                ctx.fail("C21.utf8_alias", {"alias": alias, "input": x, "arg": "subclass"})
+        if escape.xhtml_escape(_BytesSub(raw)) != escape.xhtml_escape(x) or escape.xhtml_escape(_StrSub(x)) != escape.xhtml_escape(x):
+            ctx.fail("C21.html_bytes_equiv", {"input": x, "arg": "subclass"})
         nontrivial = True
     elif kind == "tree":
         src, exp, depth, has_bytes = build_tree(x)
@@ -507,6 +557,7 @@ utf8_s = st.one_of(
     st.tuples(st.just("bytes"), text_s.map(lambda s: s.encode("utf-8"))),
     st.tuples(st.just("none"), st.none()),
     st.tuples(st.just("other"), st.sampled_from(sorted(OTHER))),
+    st.tuples(st.just("subclass"), short_text),
     st.tuples(st.just("tree"), tree_s),
     st.tuples(st.just("tree"), tree_s),
 )
@@ -645,12 +696,22 @@ def run_forms(ctx, case):
     raise AssertionError(helper)
 
 
-PARTS = {"forms": run_forms, "html": run_html, "url": run_url, "json": run_json, "utf8": run_utf8, "query": run_query}
+def types_cases():
+    """Finite type sweep: every foreign type through every type-rejecting helper; subclasses as valid data."""
+    for key in sorted(OTHER):
+        yield ("other", key)
+    for text in ["", "abc", "\xe9", "e\u0301", "\U0001F600<&"]:
+        yield ("subclass", text)
+    yield ("none", None)
+
+
+PARTS = {"types": run_utf8, "forms": run_forms, "html": run_html, "url": run_url, "json": run_json, "utf8": run_utf8, "query": run_query}
 
 
 def main(ctx):
     ctx.run_replays(PARTS)
     ctx.enumerate(forms_cases(), run_forms, name="forms")
+    ctx.enumerate(types_cases(), run_utf8, name="types")
     ctx.explore(html_s, run_html, ctx.n(800, 60000), name="html")
     ctx.explore(url_s, run_url, ctx.n(800, 60000), name="url")
     ctx.explore(json_value, run_json, ctx.n(800, 60000), name="json")
